@@ -8,6 +8,10 @@ Decided (structural necessary conditions):
   C05.total    end-of-stream accounting: a frame larger than the remaining declared samples is rejected
   C05.inv      every must-reject error class has a live construction site reachable from a decode entry point
   C05.md5      MD5Match only on the true edge of (stored digest == computed digest)
+  C05.eof     (also) a header read error ends the stream cleanly only if it is an I/O error of kind UnexpectedEof
+  C05.part    the residual partition layout guards of both decoders (shared with C17 / C03)
+  C05.utf8    malformed continuation bytes of the coded frame number are rejected (shared with C03)
+  (C05.inv floors are the counted numbers of live rejecting exits per error class: a removed exit is reported)
 Not decided: that a flipped bit is detected (CRC mathematics), that delivered samples are a prefix.
 """
 from rules.common import *
